@@ -431,5 +431,24 @@ def buildLoopGen (F : BodyFn) (P : Project) (g : G) (cfg : Cfg) :
     | .error e => .error e
     | .ok (so', s') => buildLoopGen F P g cfg so' s' ts
 
+/-- `build()` from `create_dag` on (as `Engine.build`), with the loop computed from the extracted data. -/
+def buildGen (F : BodyFn) (P : Project) (cfg : Cfg) (w : World) (picks : List Nat) : Except Illegal Result :=
+  match createDag P cfg with
+  | .error _ => .ok { exit := ladderCode "ResolvingDependenciesError", reports := [], log := [], w := w, complete := picks.isEmpty }
+  | .ok (g, marks) =>
+    match Sorter.fromDag g isTaskV (prioFn P) with
+    | .error _ =>
+      .ok { exit := ladderCode "Exception", reports := [], log := [], w := w, complete := picks.isEmpty }
+    | .ok so =>
+      let s0 : Sess := { w := w, skipMarks := marks }
+      match buildLoopGen F P g cfg so s0 picks with
+      | .error e => .error e
+      | .ok (so', s) =>
+        let failed := s.reports.any (fun r => r.2 == .fail)
+        .ok { exit := if s.crashed then ladderCode "Exception"
+                      else if failed then ladderCode "ExecutionError" else exitCode "OK",
+              reports := s.reports, log := s.log, w := s.w,
+              complete := s.stop || s.crashed || !so'.isActive }
+
 end EngineGen
 end Pytask
